@@ -196,6 +196,7 @@ func (s *gridScreen) setSize(w, h int) {
 
 	prevW := s.size.X
 	prevH := s.size.Y
+	prevCont := s.cellCont
 
 	minW := w
 	if w > prevW {
@@ -266,6 +267,26 @@ func (s *gridScreen) setSize(w, h int) {
 		}
 	}
 	s.cellStyles = styleRect
+
+	// A wide character cut by the new right edge becomes blank.
+	if w < prevW && len(prevCont) > 0 {
+		for y := 0; y < minH; y++ {
+			if !prevCont[y][w] {
+				continue
+			}
+			for x := w - 1; x >= 0; x-- {
+				wasCont := s.cellCont[y][x]
+				s.chars[y][x] = ' '
+				s.cellText[y][x] = " "
+				s.cellWidth[y][x] = 1
+				s.cellCont[y][x] = false
+				s.cellStyles[y][x] = s.style
+				if !wasCont {
+					break
+				}
+			}
+		}
+	}
 
 	s.bottomMargin = clamp(h-(s.size.Y-s.bottomMargin), 0, h-1)
 	s.topMargin = clamp(s.topMargin, 0, s.bottomMargin)
@@ -419,6 +440,10 @@ func (s *gridScreen) rawWriteRunes(x int, y int, b []rune, cr ChangeReason) {
 	textRow := s.cellText[y]
 	widthRow := s.cellWidth[y]
 	contRow := s.cellCont[y]
+	if end := x + len(b); len(b) > 0 && end < s.size.X && contRow[end] {
+		// the range ends inside a wide character: blank it whole
+		s.clearWideAt(y, end)
+	}
 	for i, r := range b {
 		idx := x + i
 		if contRow[idx] {
@@ -442,6 +467,10 @@ func (s *gridScreen) rawWriteRune(x int, y int, r rune, width int, cr ChangeReas
 	}
 	if s.cellCont[y][x] {
 		s.clearWideAt(y, x)
+	}
+	if end := x + width; end < s.size.X && s.cellCont[y][end] {
+		// the new character ends inside a wide character: blank it whole
+		s.clearWideAt(y, end)
 	}
 
 	prevWidth := int(s.cellWidth[y][x])
@@ -534,6 +563,14 @@ func (s *gridScreen) deleteChars(x int, y int, n int, cr ChangeReason) {
 	}
 	if x+n > s.size.X {
 		n = s.size.X - x
+	}
+
+	// Wide characters cut by either end of the deleted range become blank.
+	if s.cellCont[y][x] {
+		s.clearWideAt(y, x)
+	}
+	if x+n < s.size.X && s.cellCont[y][x+n] {
+		s.clearWideAt(y, x+n)
 	}
 
 	line := s.chars[y]
